@@ -122,6 +122,7 @@ def run_case(case):
     with_usage = "RESOURCE_USAGE" in metrics
     cands = []
     fallback_points = set()
+    trees = {}
     for a in ra:
         for b in rb:
             bump("pairs_examined")
@@ -129,8 +130,8 @@ def run_case(case):
                 continue
             bump("compatible_pairs_combined")
             _combo(d, lambda: jr.merge(a[2], b[2], shared, [x["name"] for x in d["arch"]["mems"]]), a[0] + b[0], _add(a[1], b[1]),
-                   with_usage, finite, bump, cands, fallback_points)
-    return _compare(d, metrics, m, pm, cands, fallback_points, counters, bump, [len(ra), len(rb)])
+                   with_usage, finite, bump, cands, fallback_points, trees)
+    return _compare(d, metrics, m, pm, cands, fallback_points, counters, bump, [len(ra), len(rb)], trees=trees)
 
 
 def _add(*xs):
@@ -141,7 +142,7 @@ def _vec(e, l):
     return [e] if l is None else [e, l]
 
 
-def _combo(d, build, se, sl, with_usage, finite, bump, cands, fallback_points):
+def _combo(d, build, se, sl, with_usage, finite, bump, cands, fallback_points, trees=None):
     """One compatible combination: merged by the reference merger, evaluated by the real model."""
     from .. import harness as H
     from accelforge.model.main import InvalidMappingError
@@ -183,9 +184,34 @@ def _combo(d, build, se, sl, with_usage, finite, bump, cands, fallback_points):
         ru = ev.resource_usage()
         v += [round(float(ru.get(x, 0.0)), 6) for x in finite]     # the join carries usage in float32
     cands.append(tuple(v))
+    if trees is not None:
+        trees.setdefault(tuple(v), tree)
+        try:
+            full = max([float(u) for k, u in ev.resource_usage().items() if k in finite] or [0.0])
+            if abs(full - 1.0) <= 1e-6:
+                trees.setdefault(("exact_fit", tuple(v)), True)
+        except Exception:
+            pass
 
 
-def _compare(d, metrics, m, pm, cands, fallback_points, counters, bump, sizes, _cache=None):
+def _fit_depends_on_holder_order(d, tree, bump):
+    from .. import harness as H
+    from ..ref.treevariants import holder_order_variants
+    from accelforge.model.main import InvalidMappingError
+    if tree is None:
+        return False
+    for v in holder_order_variants(d, tree, 60):
+        try:
+            H.eval_tree(d, v)
+        except InvalidMappingError:
+            bump("holder_order_variant_over_capacity")
+            return True
+        except Exception:
+            continue
+    return False
+
+
+def _compare(d, metrics, m, pm, cands, fallback_points, counters, bump, sizes, _cache=None, trees=None):
     from .. import harness as H
     from ..ref.pareto import front
     from accelforge.mapper.FFM.main import join_pmappings
@@ -226,6 +252,16 @@ def _compare(d, metrics, m, pm, cands, fallback_points, counters, bump, sizes, _
         kind = "join_misses_combinations" if only_ref and not only_join else ("join_returns_unknown_or_dominated_points" if only_join and not only_ref else "fronts_differ")
         if only_ref and all(tuple(r) in fallback_points for r in only_ref) and not only_join:
             kind = "join_refuses_tree_compatible_pair"
+        elif only_ref and not only_join and trees and all(trees.get(("exact_fit", tuple(r))) for r in only_ref):
+            # every missing combination fills a buffer EXACTLY (usage 1.0): the join compares float32 sums of
+            # reservation fractions with `<= 1` (the C08 finding exact_fit_dropped_by_float32_rounding, here in
+            # limit_capacity)
+            kind = "join_drops_exact_fit_combination"
+        elif only_ref and not only_join and trees and all(_fit_depends_on_holder_order(d, trees.get(tuple(r)), bump) for r in only_ref):
+            # the missing combinations fit or not depending on the ORDER of adjacent storage nodes of the same loop
+            # nest (the model's usage depends on it: C06 finding); the reference merger happened to build an order
+            # that fits, the join's own accounting is the other one
+            kind = "join_rejects_combination_whose_fit_depends_on_holder_order"
         viol.append({"sig": kind + (":with_usage" if with_usage else ""),
                      "witness": {"metrics": metrics, "only_in_join": only_join[:6], "only_in_reference": only_ref[:6],
                                  "only_in_join_all": only_join[:40], "only_in_reference_all": only_ref[:40], "join_front": len(got), "reference_front": len(ref),
